@@ -120,6 +120,10 @@ def run(prog: Program, L: Ledger) -> None:
         in_composite = fi.cls is comp_cls  # the generic composite; the specialised ones are declared over package moves
         storages = _storage_names(fi)
         move_names, crit_names = set(), set()
+        # parameters known as user objects by their annotation only (constructor conveniences such as
+        # `default_displacement_move: MoveType | None`, registered WITHOUT a criteria and therefore package moves): the
+        # truthiness rule below is about objects given to add_move / held by the move table
+        typed_only: set[str] = set()
         if fi.name == "add_move":
             move_names.add("move")
             crit_names.add("criteria")
@@ -131,8 +135,10 @@ def run(prog: Program, L: Ledger) -> None:
                 storages.add(a_.arg)
             elif base in ("MoveType", "Move", "MoveProtocol") and fi.name != "add_move":
                 move_names.add(a_.arg)
+                typed_only.add(a_.arg)
             elif base in ("CriteriaType", "Criteria", "CriteriaProtocol") and fi.name != "add_move":
                 crit_names.add(a_.arg)
+                typed_only.add(a_.arg)
         names = {"move": move_names, "criteria": crit_names}
         colls: dict[str, set[str]] = {"move": set(), "criteria": set()}  # locals / parameters holding SEVERAL user objects
         for a_ in fi.node.args.args + fi.node.args.kwonlyargs:
@@ -228,6 +234,20 @@ def run(prog: Program, L: Ledger) -> None:
                             L.violation("P1", f"{fi.qualname}:{k}.__eq__", f"{fi.module.relpath}:{n.lineno}",
                                         f"`{norm(n)[:80]}` compares / looks up a user {k} object by value: this calls its __eq__ (or __hash__), which is not part of the documented protocol — only identity (`is`, id()) is",
                                         f"two distinct user {k}s that compare equal (e.g. dataclasses with equal settings): one of them is treated as the other (here: skipped)", norm(n)[:100])
+            elif isinstance(n, (ast.If, ast.While, ast.IfExp, ast.Assert)) or (isinstance(n, ast.UnaryOp) and isinstance(n.op, ast.Not)) or isinstance(n, ast.BoolOp) \
+                    or (isinstance(n, ast.Call) and isinstance(n.func, ast.Name) and n.func.id in ("bool", "len") and len(n.args) == 1):
+                # truthiness of a user object: `if criteria:`, `not move`, `move and …`, bool(move), len(move) call its
+                # __bool__ / __len__ — a conforming object may define either (a criteria that records its decisions is
+                # empty, hence falsy, when fresh)
+                tested = [n.test] if isinstance(n, (ast.If, ast.While, ast.IfExp, ast.Assert)) else ([n.operand] if isinstance(n, ast.UnaryOp) else (list(n.values) if isinstance(n, ast.BoolOp) else list(n.args)))
+                for t_ in tested:
+                    k = kind_of(t_)
+                    if k is None or (isinstance(t_, ast.Name) and t_.id in typed_only):
+                        continue
+                    n_uses += 1
+                    L.violation("P1", f"{fi.qualname}:{k}.__bool__", f"{fi.module.relpath}:{n.lineno}",
+                                f"`{norm(n.test if isinstance(n, (ast.If, ast.While, ast.IfExp, ast.Assert)) else n)[:80]}` takes the truth value (or length) of a user {k} object: this calls its __bool__/__len__, which is not part of the documented protocol — `is None` / `is not None` is the test that asks whether one was given",
+                                f"an explicitly passed user {k} that is falsy (defines __len__ and is empty, or __bool__) is treated as absent: replaced by a default or rejected", norm(t_)[:100])
             elif isinstance(n, ast.Call) and isinstance(n.func, ast.Attribute) and n.func.attr in ("index", "count", "remove", "add", "discard") and n.args and kind_of(n.args[0]) is not None and not norm(n.func).startswith("self.move_history"):
                 n_uses += 1
                 L.violation("P1", f"{fi.qualname}:{kind_of(n.args[0])}.__eq__/__hash__", f"{fi.module.relpath}:{n.lineno}",
